@@ -18,7 +18,7 @@ def nt_write(key, tstr, v):
 n = 0
 DEFAULTS = {"b": (True, "boolean", False), "i": (3, "int", 11), "f": (1.5, "double", 2.25), "s": ("abc", "string", "xyz"), "r": (b"\x01\x02", "raw", b"\x09"),
             "ai": ([1, 2], "int[]", [5]), "af": ([1.0], "double[]", [2.5, 3.5]), "as_": (["a"], "string[]", ["q", "r"]), "ab": ([True], "boolean[]", [False, True])}
-for trial in range(40):
+for trial in range(40 * int(os.environ.get("VERIF_SCALE", "1"))):
     sub = {k: rnd.choice([None, None, "pid", "state"]) for k in DEFAULTS}
     wd = {k: rnd.random() < 0.6 for k in DEFAULTS}
     ns = {k: tunable(DEFAULTS[k][0], writeDefault=wd[k], subtable=sub[k]) for k in DEFAULTS}
